@@ -126,10 +126,10 @@ def prune_cache(keep_hash):
         ents = os.listdir(CACHE)
     except FileNotFoundError:
         return
-    if len(ents) < 400:
+    if len(ents) < 240:
         return
     ents = sorted(ents, key=lambda e: os.path.getmtime(os.path.join(CACHE, e)))
-    for e in ents[:len(ents) - 300]:
+    for e in ents[:len(ents) - 170]:
         try:
             os.unlink(os.path.join(CACHE, e))
         except OSError:
